@@ -122,6 +122,10 @@ type FaultPlan struct {
 	// IterFailAfter returns after how many items a listing delivers err (-1: never).
 	IterFailAfter func(c *Call) (int, error)
 	WriterFaults  func(c *Call) (failWrite, failCommit bool)
+	// IterFaultsDelivered counts the listing errors actually handed to a consumer
+	// (a listing that fails by itself first, or whose consumer stops first, never
+	// gets to the injected one).
+	IterFaultsDelivered int
 }
 
 // Wrap returns an Interface that records every call in t (with its arguments and
@@ -314,6 +318,7 @@ func faultSeq[T any](seq ociregistry.Seq[T], plan *FaultPlan, c *Call) ociregist
 			}
 			if n >= after {
 				stopped = true
+				plan.IterFaultsDelivered++
 				yield(*new(T), ferr)
 				return false
 			}
@@ -326,6 +331,7 @@ func faultSeq[T any](seq ociregistry.Seq[T], plan *FaultPlan, c *Call) ociregist
 		})
 		if !stopped && n <= after {
 			// the listing ended before the fault position: deliver the error at the end
+			plan.IterFaultsDelivered++
 			yield(*new(T), ferr)
 		}
 	}
